@@ -30,7 +30,7 @@ abbrev Bm := List Word
 
 /-- SWITCH: `false` follows mir-bitmap.h as it is; set to `true` once fixes/C19-bitmap-flag.patch
 (or an equivalent repair) is in /repo.  Everything else follows from this definition. -/
-def flagFix : Bool := false
+def flagFix : Bool := true
 
 /-- word `i`; 0 beyond the length (what every C reader does by its `i >= len ? 0 : addr[i]` guard) -/
 def wget (bm : Bm) (i : Nat) : Word := bm.getD i 0
